@@ -137,3 +137,37 @@ def foreign_switch(key, p=0.1, allow_names=True):
         return []
     pool = FOREIGN_SWITCHES if allow_names else [x for x in FOREIGN_SWITCHES if "serialize" not in x and "to_string" not in x]
     return [r.choice(pool)]
+
+
+def respell(key, lines, p=0.2):
+    """other legal spellings around `disabled` (own PRNG stream keyed by `key`): the attribute's delimiters may be brackets
+    or braces (`#[strum[disabled]]`, `#[strum{disabled}]`: syn's parse_args accepts all three), and an EMPTY `props()` may
+    precede it, in the same list or in an attribute of its own"""
+    if MINIMAL[0] or not any("disabled" in l and l.startswith("#[strum(") and "props(disabled" not in l for l in lines):
+        return lines
+    import random
+    r = random.Random("respell-" + key)
+    if r.random() >= p:
+        return lines
+    out = []
+    how = r.choice(["brackets", "braces", "empty_props_before", "empty_props_inside", "empty_props_attr_first"])
+    done = False
+    for l in lines:
+        if done or not (l.startswith("#[strum(") and "disabled" in l and "props(disabled" not in l and l.endswith(")]")):
+            out.append(l)
+            continue
+        inner = l[len("#[strum("):-2]
+        if how == "brackets":
+            out.append("#[strum[%s]]" % inner)
+        elif how == "braces":
+            out.append("#[strum{%s}]" % inner)
+        elif how == "empty_props_before":
+            out.append("#[strum(props())]")
+            out.append(l)
+        elif how == "empty_props_inside":
+            out.append("#[strum(props(), %s)]" % inner)
+        else:
+            out.insert(0, "#[strum(props())]")
+            out.append(l)
+        done = True
+    return out
